@@ -48,7 +48,7 @@ def point_cases(max_ops=25, curves=None, time_classes=TIME_CLASSES, pos_classes=
 def realise(case, hook=None):
     """-> (live, elem, t, x_hat, info) ; info: dict(pos=..., rel_out=..., tau=..., ratio=...)
     hook(live, i) is called before the first and after every operation of the history (operator life cycle)"""
-    live = Live(case['spec'], min_hx=1e-4)
+    live = Live(case['spec'], min_hx=case.get('min_hx', 1e-4))
     if hook:
         hook(live, 0)
     for i, op in enumerate(case['ops']):
@@ -58,6 +58,8 @@ def realise(case, hook=None):
     g = get_geo(case['spec']['curve'])
     leaves = live.leaves()
     e = leaves[case['ei'] % len(leaves)]
+    if case.get('pick') == 'narrowest':
+        e = min(leaves, key=lambda q: (q.space_interval[1] - q.space_interval[0], q.time_interval[0]))
     xa, xb = (float(v) for v in e.space_interval)
     ta, tb = (float(v) for v in e.time_interval)
     h = xb - xa
@@ -78,6 +80,8 @@ def realise(case, hook=None):
         t = tb
     elif tcl == 'shortly_after':
         t = tb + ht * 10 ** (-3 + 3 * u)
+    elif tcl == 'hair_after_end':
+        t = tb * (1 + 1e-9 * (0.15 + 0.8 * u)) if tb > 0 else tb + ht * 1e-9
     elif tcl == 'tau_start':
         t = ta + (h * h / 16) * (1 + 30 * u * u)        # parabolic ratio h^2/tau between 16 and 16/31
     elif tcl == 'tau_end':
